@@ -137,10 +137,12 @@ def isLit : BExp → Bool
 /-- structural `Qtype.is_const` -/
 def isConstBits (l : List BExp) : Bool := l.all isLit
 
-/-- value of a list of literal bits (`from_bool`), non-literals read as 0 -/
+/-- value of a list of constant bits (`from_bool`).  The real run may see literals where the model has
+an unevaluated constant expression (sympy folded it), so a bit is read by evaluating it under the
+all-false environment; for literal bits this is the literal. -/
 def litVal : List BExp → Nat
   | [] => 0
-  | b :: bs => (match b with | .tt => 1 | _ => 0) + 2 * litVal bs
+  | b :: bs => (if b.eval (fun _ => false) then 1 else 0) + 2 * litVal bs
 
 /-- the digits of `bin(v)[2:][::-1]` as literals: little-endian, `"0"` for 0 -/
 def natBitsLE : Nat → Nat → List BExp
